@@ -121,3 +121,17 @@ Theorem C13_at_history_level : forall cb g r (cuts : list (list bytes)) (chunks 
             uh_c13 (wq_uri r) t /\ uh_c12 g (wq_uri r) t.
 Proof. exact uh_request_uri_fold_chunking. Qed.
 Print Assumptions C13_at_history_level.
+
+(* ... and for every transaction of n pipelined requests, in any chunking (chunks spanning request boundaries) *)
+Require Import Htp.Model.Base Htp.Model.MBstr Htp.Model.MConnTypes Htp.Model.MTxCommon Htp.Model.MReqLine Htp.Model.MReqUri Htp.Model.MTxReq.
+Require Import Htp.Model.MReq Htp.Model.MRes Htp.Model.MConnp Htp.Model.MUri Htp.Model.MPath.
+Require Import Htp.Spec.SWire Htp.Proof.PWire Htp.Proof.PWireExch Htp.Proof.PWireGlue Htp.Proof.PSeg Htp.Proof.PSegLine Htp.Proof.PSegRun Htp.Proof.PSegFold Htp.Proof.PSegPipe.
+Require Import Htp.Proof.PUriHist Htp.Proof.PUriHistTx Htp.Proof.PUriHistThm Htp.Proof.PUriHistPipe.
+Require Import Htp.Proof.PUriHistPipeThm.
+Theorem C13_C12_for_pipelined_requests : forall cb g (rs : list wr_request) (chunks : list bytes),
+  wr_all_ok cb -> g_allow_space_uri g = false -> (g_max_tx g = 0 \/ length rs < g_max_tx g)%nat ->
+  Forall (fun r => sg_req_ok g r = true) rs -> Forall (fun x => x <> []) chunks -> concat chunks = concat (map wr_request_wire rs) ->
+  Forall2 (fun slot r => exists t, slot = Some t /\ uh_c13 (wq_uri r) t /\ uh_c12 g (wq_uri r) t)
+          (c_txs (fst (cp_run cb g connp_new (OpOpen :: map OpReqData chunks)))) rs.
+Proof. exact uh_pipeline_uri. Qed.
+Print Assumptions C13_C12_for_pipelined_requests.
